@@ -173,8 +173,11 @@ def check_kernels(repo, chk, tier):
         ga, gd = cls.methods.get("get_amp"), cls.methods.get("get_sympy_dom")
         if ga is None or gd is None:
             raise AnalysisError("%s lost get_amp/get_sympy_dom" % ckey)
-        called = {n.func.id for n in walk_local(ga.node) if isinstance(n, ast.Call) and isinstance(n.func, ast.Name)}
-        doms = {n.func.id for n in walk_local(gd.node) if isinstance(n, ast.Call) and isinstance(n.func, ast.Name) and n.func.id.endswith("_dom")}
+        def _callee_name(c):
+            return c.func.id if isinstance(c.func, ast.Name) else (c.func.attr if isinstance(c.func, ast.Attribute) else None)
+
+        called = {_callee_name(n) for n in walk_local(ga.node) if isinstance(n, ast.Call)} - {None}
+        doms = {_callee_name(n) for n in walk_local(gd.node) if isinstance(n, ast.Call) and (_callee_name(n) or "").endswith("_dom")}
         want = set(mapping.values())
         kernels = {k for k in mapping if k is not None}
         ok = doms == want and kernels <= called
@@ -186,6 +189,8 @@ def check_kernels(repo, chk, tier):
             # the barrier radius the class itself sets (init_params); get_sympy_dom relies on BWR_dom's default
             ip = cls.lookup("init_params")
             dvals = [n.value for n in walk_local(ip.node) if isinstance(n, ast.Assign) and len(n.targets) == 1 and norm_text(n.targets[0]) == "self.d"] if ip else []
+            if len(dvals) == 1 and isinstance(dvals[0], ast.Name) and dvals[0].id in cls.mod.toplevel_assign:
+                dvals = [cls.mod.toplevel_assign[dvals[0].id]]  # a module-level constant
             if len(dvals) != 1 or not isinstance(dvals[0], ast.Constant) or not isinstance(dvals[0].value, (int, float)):
                 raise AnalysisError("%s.init_params no longer sets self.d to one constant" % ckey)
             d_cls = sp.nsimplify(dvals[0].value)
